@@ -870,28 +870,30 @@ def unit_zm_edge(ctx):
     p1, p2, p3 = 2 ** 61 - 1, 2 ** 89 - 1, 2 ** 127 - 1
     E40 = ((1 << 319) | (0x1234567 << 100) | 0x9ABCDE) & ~1            # even, 40 octets
     cases = []
+    part = ctx.params.get("part", 0)
     # (A) declared depth r->deep, exactly
-    for kind, M in (("plain", 2 ** 190 - 11), ("barr", 2 ** 300 + 7), ("crand", 2 ** 128 - 5), ("mont", 2 ** 190 - 11),
-                    ("montR", 2 ** 127 - 1), ("auto", 2 ** 300 + 6), ("auto", 2 ** 190 - 11), ("gfp", 2 ** 255 - 19)):
-        for op in ("mul", "sqr", "inv", "div"):
-            if M % 2 == 0 and op in ("inv", "div"):
-                continue
+    for kind, M, ops in (("plain", 2 ** 190 - 11, ("mul", "sqr", "inv", "div")), ("barr", 2 ** 300 + 7, ("mul", "sqr", "inv", "div")),
+                         ("crand", 2 ** 128 - 5, ("mul", "sqr")), ("mont", 2 ** 190 - 11, ("mul", "sqr", "inv", "div")),
+                         ("montR", 2 ** 127 - 1, ("mul", "sqr", "inv", "div")), ("auto", 2 ** 190 - 11, ("mul", "div")),
+                         ("gfp", 2 ** 255 - 19, ("mul", "div"))):
+        for op in ops:
             cases.append(("deep", kind, M, op, M // 3, M // 5 | 1, None, True))
     # (B) even modulus, invertible element: the value is specified by zm.h (any natural modulus)
     cases += [("even", "plain", 10, "inv", 3, 7, None, False), ("even", "barr", 2 ** 64, "div", 2 ** 63 + 1, 5, None, False),
-              ("even", "auto", E40, "inv", E40 // 2 + 2 if (E40 // 2) % 2 else E40 // 2 + 1, 9, None, False),
-              ("even", "plain", 2 ** 64 - 2, "div", 2 ** 63 + 3, 12345, None, False)]
+              ("even", "auto", E40, "inv", E40 // 2 + 2 if (E40 // 2) % 2 else E40 // 2 + 1, 9, None, False)]
     # (C), (D) non-invertible elements: qr.h "\\expect a invertible; if not, b may be anything" -- no value verdict
     cases += [("noninv", "mont", p3 * p2, "inv", 0, 1, None, False), ("noninv", "mont", p3 * p2, "div", 0, 5, None, False),
               ("noninv", "montR", p3 * p2, "inv", 0, 1, None, False),
               ("noninv", "mont", 15, "inv", 5, 1, None, False), ("noninv", "mont", p3 * p2, "div", p3, 77, None, False),
-              ("noninv", "montR", p3 * p1, "inv", 3 * p1, 1, None, False), ("noninv", "auto", p3 * p2, "inv", 2 * p2, 1, None, False),
+              ("noninv", "montR", p3 * p1, "inv", 3 * p1, 1, None, False),
               ("noninv", "plain", 15, "inv", 5, 1, None, False), ("noninv", "barr", p3 * p2, "div", p3, 3, None, False),
               ("noninv", "crand", 2 ** 128 - 3, "inv", 5 * 83, 1, None, False)]
     # (F) zero divisors in 'pure' Montgomery rings with l < B*n
     for M, x, y, l in ((15, 3, 10, 40), (15, 5, 6, 4), (p3 * p2, 5 * p3, 9 * p2, 217), (p3 * p3, 3 * p3, 7 * p3, 254)):
         cases.append(("montR-short-zd", "montR", M, "mul", x, y, l, False))
-        cases.append(("montR-short-zd", "montR", M, "sqr", x if M != 15 else 0, y, l, False))
+        if M != 15:
+            cases.append(("montR-short-zd", "montR", M, "sqr", x, y, l, False))
+    cases = [c for i, c in enumerate(cases) if i % 2 == part]
     for cat, kind, M, op, x, y, l, exact in cases:
         no = blen(M)
         if kind == "crand" and not crand_ok(M, W):
@@ -1741,20 +1743,20 @@ def unit_pp_edge(ctx):
     C = []
     if part == 0:
         # ppDiv / ppMod / ppRed by the constant 1, ppDiv by polynomials of degree k*B (top word 1)
-        C += [("ppDiv", 1, 0x1235, 1, 1), ("ppDiv", 2, X + 5, 1, 1), ("ppMod", 1, 0x1235, 1, 1), ("ppMod", 2, X + 5, 1, 1),
-              ("ppRed", 1, X * 7 + 3, 1), ("ppDiv", 2, (X >> 1) * X + 77, 2, X + 0x1B), ("ppDiv", 4, big_a & (X ** 4 - 1), 2, X + 3),
+        C += [("ppDiv", 2, X + 5, 1, 1), ("ppMod", 1, 0x1235, 1, 1), ("ppMod", 2, X + 5, 1, 1),
+              ("ppRed", 1, X * 7 + 3, 1), ("ppDiv", 4, big_a & (X ** 4 - 1), 2, X + 3),
               ("ppDiv", 11, big_a & (X ** 11 - 1), 5, X ** 4 + (f163 & (X ** 4 - 1))), ("ppDiv", 3, X ** 2 + X + 1, 3, X ** 2 + 7)]
+    elif part == 1:
         # ppExGCD: one operand without constant term after the common power of x is removed; n < m
-        C += [("ppExGCD", 1, 1, 1, 2), ("ppExGCD", 1, 2, 1, 1), ("ppExGCD", 1, 0b1011, 1, 0b110), ("ppExGCD", 1, 0b110, 1, 0b1011),
+        C += [("ppExGCD", 1, 1, 1, 2), ("ppExGCD", 1, 2, 1, 1), ("ppExGCD", 1, 0b1011, 1, 0b110),
               ("ppExGCD", 3, X * X * 0x19 + X * 5 + 1, 2, (X * 3 + 0x2F) << 1), ("ppExGCD", 2, (X + 0x1F3) << 3, 3, (X * X * 5 + X + 1) << 3),
               ("ppExGCD", 1, 0b111, 2, X + 3), ("ppExGCD", 2, X + 3, 3, X * X + X + 1)]
     else:
         # declared stack depth / declared operand size, exactly as pp.h says
         C += [("ppIsIrred", 1, 0b10011), ("ppIsIrred", wlen(f163, B), f163), ("ppIsIrred", wlen(f233, B) + 1, f233),
               ("ppIsIrred", 1, 0b110), ("ppIsIrred", 1, 1),
-              ("ppMinPoly:a", 1, 0b11), ("ppMinPoly:a", B // 2, (1 << B) - 1), ("ppMinPoly:a", B + 1, 0x5A5A5A5A5),
-              ("ppMinPoly:deep", 2 * B, (1 << (4 * B)) - 1), ("ppMinPoly:deep", B, 0x9E3779B97F4A7C15 & (X - 1) | X << (B - 3)),
-              ("ppMinPoly:deep", 3, 0b101101),
+              ("ppMinPoly:a", 1, 0b11), ("ppMinPoly:a", B + 1, 0x5A5A5A5A5),
+              ("ppMinPoly:deep", 2 * B, (1 << (4 * B)) - 1), ("ppMinPoly:deep", 3, 0b101101),
               ("ppMinPolyMod", 1, 0b10, 0b1011), ("ppMinPolyMod", wlen(f163, B), 0b10, f163), ("ppMinPolyMod", 1, 0b110, 0b11111)]
     for c in C:
         fn = c[0]
@@ -1901,7 +1903,7 @@ def unit_gf2(ctx):
         if not irr:
             continue            # \expect of the field operations (correct description) does not hold
         n_deep_canary += 1
-        if n_deep_canary <= 3 and ctx.case(["gf2:declared-deep", list(p4)], "gf2:ops:exact-deep"):
+        if n_deep_canary <= 2 and ctx.case(["gf2:declared-deep", list(p4)], "gf2:ops:exact-deep"):
             # mul / sqr / inv / div with exactly f->deep
             fld = Ring.gf2(lib, p4)
             x, y = draws[0][0] | 1, draws[0][1]
@@ -1921,7 +1923,7 @@ def unit_gf2(ctx):
             lib.release()
         aligned = m % B == 0
         n_aligned_canary += aligned
-        if aligned and n_aligned_canary <= 2:
+        if aligned and n_aligned_canary <= 1:
             # m multiple of B: gf2Inv / gf2Div pass the n-word elements to ppInvMod / ppDivMod as (n + 1)-word
             # operands (read past the element on the examined tree): one call per case here, none in the bulk
             for op in ("inv", "div"):
@@ -2002,28 +2004,24 @@ def unit_gf2(ctx):
 
 
 def jobs(tier, scale=1.0):
+    """jobs of this half of C05 (no cfg: the caller attaches the configuration)"""
     q = tier == "quick"
     J = []
 
     def sc(v):
         return max(1, int(v * scale))
-    nz = 6 if q else 16
-    for k in range(nz):
-        J.append({"unit": "c05_pp:unit_zm", "params": {"chunk": k, "nchunks": nz, "cases": sc(1500 if q else 12000), "tuples": 3 if q else 5}})
-    J.append({"unit": "c05_pp:unit_zm_edge", "params": {}})
-    ns = 4 if q else 16
-    for k in range(ns):
-        J.append({"unit": "c05_pp:unit_pp_small", "params": {"chunk": k, "nchunks": ns, "maxdeg": 8 if q else 10}})
-    ng = 3 if q else 12
-    for k in range(ng):
-        J.append({"unit": "c05_pp:unit_gf2", "params": {"chunk": k, "nchunks": ng, "cases": sc(30 if q else 300)}})
-    J.append({"unit": "c05_pp:unit_pp_edge", "params": {"part": 0}})
-    J.append({"unit": "c05_pp:unit_pp_edge", "params": {"part": 1}})
-    ni = 2 if q else 8
-    for k in range(ni):
-        J.append({"unit": "c05_pp:unit_pp_irred", "params": {"chunk": k, "nchunks": ni, "cases": sc(400 if q else 2500)}})
-    for k in range(2 if q else 4):
-        J.append({"unit": "c05_pp:unit_pp_mod", "params": {"chunk": k, "cases": sc(5000 if q else 50000)}})
-    for k in range(2 if q else 4):
-        J.append({"unit": "c05_pp:unit_pp_arith", "params": {"chunk": k, "cases": sc(6000 if q else 60000)}})
+
+    def add(unit, n, **params):
+        for k in range(n):
+            J.append({"unit": "c05_pp:" + unit, "params": dict(params, chunk=k, nchunks=n)})
+    add("unit_zm", 6 if q else 16, cases=sc(2500 if q else 25000), tuples=3 if q else 5)
+    add("unit_pp_small", 4 if q else 16, maxdeg=(7 if q else 10) if scale >= 1 else 6)
+    add("unit_pp_arith", 2 if q else 6, cases=sc(12000 if q else 150000))
+    add("unit_pp_mod", 2 if q else 8, cases=sc(6000 if q else 60000))
+    add("unit_pp_irred", 4 if q else 12, cases=sc(200 if q else 1500))
+    add("unit_gf2", 4 if q else 12, cases=sc(25 if q else 250))
+    for part in range(2):
+        J.append({"unit": "c05_pp:unit_zm_edge", "params": {"part": part}})
+    for part in range(3):
+        J.append({"unit": "c05_pp:unit_pp_edge", "params": {"part": part}})
     return J
